@@ -18,9 +18,77 @@ def norm(path):
     if path is None:
         return None
     path = _COPIA_RE.sub('', path)
+    if '<impl ' in path:
+        path = _IMPL_RE.sub(lambda m: m.group(1) + '::', path)
     for rx, rep in _ALIASES:
         path = rx.sub(rep, path)
     return path
+
+
+_IMPL_RE = re.compile(r'(?<![A-Za-z0-9_:])(?!(?:core|std|alloc)::)(?:[a-z_][a-z0-9_]*::)+<impl ([a-z_][a-z0-9_]*::[A-Za-z_][A-Za-z0-9_:]*)>::')
+
+
+def _pre(path):
+    """`delta_check::<impl delta::Delta>::validate` (an inherent impl block placed in another module) is `delta::Delta::validate`"""
+    path = _COPIA_RE.sub('', path)
+    return _IMPL_RE.sub(lambda m: m.group(1) + '::', path)
+
+
+def set_moved_item_aliases(raw_bodies, raw_adts):
+    """An item the rules name (`wire::cas_decide`, `bidir::copy_atomic`, `protocol::MessageType`) that was moved to another
+    module or file of the crate (and re-exported, so callers compile unchanged) keeps the name the rules know: when the named
+    path has no definition any more and exactly one item of the crate has the same final name (`Type` / `Type::method` /
+    `function`), that item's path is mapped back."""
+    try:
+        import inline
+        anchors = inline.anchors()
+    except Exception:
+        return
+    paths = set()
+    for rb in raw_bodies:
+        q = _pre(rb['path'])
+        for rx, rep in _ALIASES:
+            q = rx.sub(rep, q)
+        paths.add(q)
+    adts = set()
+    for a in raw_adts:
+        q = _pre(a['path'])
+        for rx, rep in _ALIASES:
+            q = rx.sub(rep, q)
+        adts.add(q)
+    tops = {q.split('::{')[0] for q in paths}
+    crate_mods = {t.split('::')[0] for t in tops if not t.startswith('<')} - {'std', 'core', 'alloc'}
+    done = set()
+    for A in sorted(anchors):
+        if not re.match(r'^[A-Za-z_][A-Za-z0-9_]*(::[A-Za-z_][A-Za-z0-9_]*)+$', A):
+            continue
+        if A.split('::')[0] not in crate_mods and not A[:1].isupper():
+            continue        # a path of std / a dependency, not an item of this crate (`Type::method` = an item of the crate root)
+        if A in tops or A in adts or any(t.startswith(A + '::') for t in tops):
+            continue
+        segs = A.split('::')
+        if len(segs) >= 3 and segs[-2][:1].isupper():
+            # Type::method: the type moved - map the type (all its methods follow)
+            key, old_item, is_type = '::'.join(segs[-2:]), '::'.join(segs[:-1]), True
+        elif segs[-1][:1].isupper():
+            key, old_item, is_type = segs[-1], A, True
+        else:
+            key, old_item, is_type = segs[-1], A, False
+        if is_type:
+            tname = old_item.split('::')[-1]
+            cands = sorted({t for t in adts if t.split('::')[-1] == tname and t != old_item and '::tests' not in t})
+            if len(cands) != 1 or old_item in adts:
+                continue
+            Q = cands[0]
+        else:
+            cands = sorted({t for t in tops if t.split('::')[-1] == key and t != A and '::tests' not in t and not t.startswith('<') and '<' not in t})
+            if len(cands) != 1:
+                continue
+            Q = cands[0]
+        if (Q, old_item) in done:
+            continue
+        done.add((Q, old_item))
+        _ALIASES.append((re.compile(r'(?<![A-Za-z0-9_:])' + re.escape(Q) + r'(?![A-Za-z0-9_])'), old_item))
 
 
 def _file_module(f):
@@ -118,6 +186,7 @@ class Facts:
             with open(os.path.join(directory, fn)) as fh:
                 loaded.append(json.load(fh))
         set_inline_module_aliases([rb for d in loaded for rb in d['bodies']])
+        set_moved_item_aliases([rb for d in loaded for rb in d['bodies']], [a for d in loaded for a in d['adts']])
         for d in loaded:
             crate = 'bin' if 'Executable' in d['crate_types'] else 'lib'
             self.crates.append(crate)
